@@ -101,6 +101,14 @@ PROPS.update({
             "real": ["go-nfsd/simple (all of it)", "go-journal wal/obj/jrnl/buf/lockmap"], "stubs": STUBS, "assumptions": COMMON_ASSUME},
 })
 
+PROPS.update({
+    "C13": {"level": "exploration", "budget": {"quick": 45, "thorough": 900},
+            "level_text": "seeded search over directories (0..300 entries of all kinds and name lengths, freed slots in the middle, entries appended later) enumerated page by page with READDIR and READDIRPLUS under size limits from 0 to 100000 (count, dircount, maxcount independently), always resuming from the last cookie received; in 40% of the runs other clients add and remove names between and during the calls under a seeded schedule; the oracle is the enumeration rule set of the property",
+            "rule": "one evaluation = one seeded run building a directory and performing 3-7 complete enumerations; rules: every call makes progress (non-EOF page has an entry and a new cookie), the enumeration ends, names present throughout are returned exactly once, nothing is returned that was not present at some time during the enumeration, repeats only for names re-created meanwhile, file ids / handles / types are those of an object the name denoted. distinct = distinct execution fingerprint; non-trivial = non-empty directory",
+            "state_measure": "distinct executions",
+            "real": REAL, "stubs": STUBS, "assumptions": COMMON_ASSUME},
+})
+
 NOT_APPLICABLE = {
     "C16": "pure function of its input (XDR encode/decode round-trip and a static dispatch table): no schedule, clock, fault or interleaving for a simulator to decide; see DESIGN.md section 6",
 }
